@@ -1,7 +1,9 @@
 (** Judge for C10: bootstrap supports equal their definitions (FBP and TBE).
-    case:  ((ref T) (boots (T ...)))
-    obs :  ((fbp RUN) (tbe RUN)),  RUN = ((hang T)) | ((hang F) (panic "msg"))
-                                       | ((hang F) (err "msg") (sup ((T|F q) ...)))
+    case:  ((mode nil|fresh|chain) (ref T) (boots (T ...)) [(alg1 a) (alg2 a) (ref2 T) (boots2 (T ...))])
+    obs :  ((fbp RUN) (tbe RUN))  or, for mode chain (alg1 on (ref, boots) then alg2 on
+           (ref2, boots2) with one shared Supporter),  ((first RUN) (second RUN));
+           RUN = ((hang T)) | ((hang F) (panic "msg"))
+               | ((hang F) (err "msg") (sup ((T|F q) ...)) [(progress n)])
     [sup]: per branch of the reference in Edges() order, (Right().Tip(), Support()) after the call.
 
     Oracle (Spec/Support.v, computed from [leaves] only), for a collection on the taxa of the
@@ -21,20 +23,21 @@ Definition tol : Q := (1 # 1000000000)%Q.
 Definition qclose (a b : Q) : bool := Qle_bool (Qabs (a - b)) tol.
 Definition qleb (a b : Q) : bool := Qle_bool a b.
 
-Record run : Type := mkRun { rhang : bool; rpanic : option string; rerr : string; rsup : list (bool * Q) }.
+Record run : Type := mkRun { rhang : bool; rpanic : option string; rerr : string; rsup : list (bool * Q);
+                             rprog : option nat (* sup.Progress() after the call, when a Supporter was passed *) }.
 
 Definition dec_run (o : sexp) : option run :=
   match get_bool "hang" o with
-  | Some true => Some (mkRun true None "" [])
+  | Some true => Some (mkRun true None "" [] None)
   | Some false =>
     match get_string "panic" o with
-    | Some m => Some (mkRun false (Some m) "" [])
+    | Some m => Some (mkRun false (Some m) "" [] None)
     | None =>
       e <- get_string "err" o ;;
       (* after an error the supports are not part of the result (they may be NaN) *)
-      if negb (String.eqb e "") then Some (mkRun false None e []) else
+      if negb (String.eqb e "") then Some (mkRun false None e [] (get_nat "progress" o)) else
       s <- (x <- get "sup" o ;; dec_list (dec_pair dec_bool dec_Q) x) ;;
-      Some (mkRun false None e s)
+      Some (mkRun false None e s (get_nat "progress" o))
     end
   | None => None
   end.
@@ -126,17 +129,38 @@ Definition both (a b : option string) : option string :=
   | None, y => y
   end.
 
-Definition oracle (ref : utree) (boots : list utree) (rf rt : run) : option string :=
+(** one call: [lab] names it in messages, [alg] is fbp or tbe *)
+Definition spec_of (alg : string) (X : list string) (boots : list utree) (A : list string) : Q :=
+  if String.eqb alg "fbp" then fbp_spec X A boots else tbe_spec X A boots.
+
+Definition oracle_early (lab alg : string) (ref : utree) (boots : list utree) (r : run) : option string :=
   if forallb (same_taxa ref) boots then
     let X := leaves ref in
-    let es := edges ref in
-    first_some [ run_accepts "fbp" rf; run_accepts "tbe" rt;
-                 check_branches false "fbp" 0 X boots (fun A => fbp_spec X A boots) es (rsup rf);
-                 check_branches false "tbe" 0 X boots (fun A => tbe_spec X A boots) es (rsup rt);
-                 check_order X 0 es (rsup rf) (rsup rt);
-                 both (check_branches true "fbp" 0 X boots (fun A => fbp_spec X A boots) es (rsup rf))
-                      (check_branches true "tbe" 0 X boots (fun A => tbe_spec X A boots) es (rsup rt)) ]
-  else both (run_rejects "fbp" rf) (run_rejects "tbe" rt).
+    first_some [ run_accepts lab r;
+                 check_branches false lab 0 X boots (spec_of alg X boots) (edges ref) (rsup r) ]
+  else run_rejects lab r.
+
+Definition oracle_late (lab alg : string) (ref : utree) (boots : list utree) (r : run) : option string :=
+  if forallb (same_taxa ref) boots then
+    let X := leaves ref in
+    check_branches true lab 0 X boots (spec_of alg X boots) (edges ref) (rsup r)
+  else None.
+
+(** FBP and TBE on the same collection *)
+Definition oracle (ref : utree) (boots : list utree) (rf rt : run) : option string :=
+  if forallb (same_taxa ref) boots then
+    first_some [ oracle_early "fbp" "fbp" ref boots rf; oracle_early "tbe" "tbe" ref boots rt;
+                 check_order (leaves ref) 0 (edges ref) (rsup rf) (rsup rt);
+                 both (oracle_late "fbp" "fbp" ref boots rf) (oracle_late "tbe" "tbe" ref boots rt) ]
+  else both (oracle_early "fbp" "fbp" ref boots rf) (oracle_early "tbe" "tbe" ref boots rt).
+
+(** two calls in a row (sharing one Supporter): each is judged on its own collection *)
+Definition oracle_chain (a1 a2 : string) (ref1 : utree) (boots1 : list utree) (ref2 : utree)
+           (boots2 : list utree) (r1 r2 : run) : option string :=
+  let l1 := "first call (" ++ a1 ++ ")" in
+  let l2 := "second call (" ++ a2 ++ ", same Supporter)" in
+  first_some [ both (oracle_early l1 a1 ref1 boots1 r1) (oracle_early l2 a2 ref2 boots2 r2);
+               both (oracle_late l1 a1 ref1 boots1 r1) (oracle_late l2 a2 ref2 boots2 r2) ].
 
 (** ** correspondence *)
 Fixpoint sup_agree (alg : string) (i : nat) (m g : list (bool * Q)) : option string :=
@@ -150,18 +174,41 @@ Fixpoint sup_agree (alg : string) (i : nat) (m g : list (bool * Q)) : option str
   | _, _ => Some (alg ++ ": number of branches differs")
   end.
 
-Definition corr_run (alg : string) (m : outcome) (r : run) : option string :=
+(** [progress]: the value sup.Progress() must have after the call (None: no Supporter) *)
+Definition corr_run (alg : string) (m : outcome) (progress : option nat) (r : run) : option string :=
   if rhang r then Some (alg ++ ": implementation does not return, model returns")
   else match rpanic r with
        | Some p => Some (alg ++ ": implementation panics (" ++ p ++ "), model returns")
        | None =>
          if negb (String.eqb (oerr m) (rerr r))
          then Some (alg ++ ": error: model '" ++ oerr m ++ "', implementation '" ++ rerr r ++ "'")
-         else if String.eqb (oerr m) "" then sup_agree alg 0 (osup m) (rsup r) else None
+         else
+           match (if String.eqb (oerr m) "" then sup_agree alg 0 (osup m) (rsup r) else None) with
+           | Some d => Some d
+           | None =>
+             match progress, rprog r with
+             | None, _ => None
+             | Some n, Some g =>
+               if Nat.eqb n g then None
+               else Some (alg ++ ": Supporter.Progress() is " ++ string_of_nat g ++ ", model " ++ string_of_nat n)
+             | Some _, None => Some (alg ++ ": no progress value in the observation")
+             end
+           end
        end.
 
-Definition corr (ref : utree) (boots : list utree) (rf rt : run) : option string :=
-  first_some [ corr_run "fbp" (fbp ref boots) rf; corr_run "tbe" (Model.Support.tbe ref boots) rt ].
+Definition model_of (alg : string) (ref : utree) (boots : list utree) : outcome :=
+  if String.eqb alg "fbp" then fbp ref boots else Model.Support.tbe ref boots.
+
+Definition corr (fresh : bool) (ref : utree) (boots : list utree) (rf rt : run) : option string :=
+  let pr := if fresh then Some (n_processed ref boots) else None in
+  first_some [ corr_run "fbp" (fbp ref boots) pr rf; corr_run "tbe" (Model.Support.tbe ref boots) pr rt ].
+
+Definition corr_chain (a1 a2 : string) (ref1 : utree) (boots1 : list utree) (ref2 : utree)
+           (boots2 : list utree) (r1 r2 : run) : option string :=
+  let n1 := n_processed ref1 boots1 in
+  first_some [ corr_run ("first call (" ++ a1 ++ ")") (model_of a1 ref1 boots1) (Some n1) r1;
+               corr_run ("second call (" ++ a2 ++ ")") (model_of a2 ref2 boots2)
+                        (Some (n1 + n_processed ref2 boots2)) r2 ].
 
 (** ** statistics *)
 Definition strictly_inside (q : Q) : bool := negb (qleb q 0) && negb (qleb 1 q).
@@ -171,29 +218,62 @@ Definition nontrivial_case (ref : utree) (boots : list utree) : bool :=
                      (strictly_inside (fbp_spec X (leaves (snd ec)) boots) ||
                       strictly_inside (tbe_spec X (leaves (snd ec)) boots))) (edges ref).
 
-Definition judge (c o : sexp) : verdict :=
-  match get_tree "ref" c, (x <- get "boots" c ;; dec_list dec_utree x),
-        (x <- get "fbp" o ;; dec_run x), (x <- get "tbe" o ;; dec_run x) with
+Definition in_domain (ref : utree) (boots : list utree) : bool :=
+  tree_ok ref && forallb tree_ok boots && Nat.leb 4 (length (leaves ref)) && negb (Nat.eqb (length boots) 0).
+
+Definition finish (om cm : option string) (nontrivial : bool) (tag : string) : verdict :=
+  match om with
+  | Some m =>
+    VOracle (m ++ match cm with
+                  | None => " [the model agrees with the implementation]"
+                  | Some d => " [the model differs: " ++ d ++ "]"
+                  end)
+  | None =>
+    match cm with
+    | Some d => VCorr d
+    | None => VOk nontrivial tag
+    end
+  end.
+
+Definition get_trees (k : string) (c : sexp) : option (list utree) := x <- get k c ;; dec_list dec_utree x.
+Definition get_run (k : string) (o : sexp) : option run := x <- get k o ;; dec_run x.
+
+Definition is_alg (a : string) : bool := String.eqb a "fbp" || String.eqb a "tbe".
+
+Definition judge_pair (fresh : bool) (c o : sexp) : verdict :=
+  match get_tree "ref" c, get_trees "boots" c, get_run "fbp" o, get_run "tbe" o with
   | Some ref, Some boots, Some rf, Some rt =>
-    if negb (tree_ok ref && forallb tree_ok boots && Nat.leb 4 (length (leaves ref)) &&
-             negb (Nat.eqb (length boots) 0))
+    if negb (in_domain ref boots) then VBad "case outside the domain of the property"
+    else
+      let pre := if fresh then "fresh-supporter:" else "" in
+      if forallb (same_taxa ref) boots
+      then finish (oracle ref boots rf rt) (corr fresh ref boots rf rt) (nontrivial_case ref boots)
+                  (pre ++ (if rooted ref then "accept:rooted-ref" else "accept:unrooted-ref"))
+      else finish (oracle ref boots rf rt) (corr fresh ref boots rf rt) true (pre ++ "reject")
+  | _, _, _, _ => VBad "undecodable case or observation"
+  end.
+
+Definition judge_chain (c o : sexp) : verdict :=
+  match get_string "alg1" c, get_string "alg2" c, get_tree "ref" c, get_trees "boots" c,
+        get_tree "ref2" c, get_trees "boots2" c, get_run "first" o, get_run "second" o with
+  | Some a1, Some a2, Some ref1, Some boots1, Some ref2, Some boots2, Some r1, Some r2 =>
+    if negb (is_alg a1 && is_alg a2) then VBad "unknown algorithm"
+    else if negb (in_domain ref1 boots1 && in_domain ref2 boots2)
     then VBad "case outside the domain of the property"
     else
-      let cm := corr ref boots rf rt in
-      match oracle ref boots rf rt with
-      | Some m =>
-        VOracle (m ++ match cm with
-                      | None => " [the model agrees with the implementation]"
-                      | Some d => " [the model differs: " ++ d ++ "]"
-                      end)
-      | None =>
-        match cm with
-        | Some d => VCorr d
-        | None =>
-          if forallb (same_taxa ref) boots
-          then VOk (nontrivial_case ref boots) (if rooted ref then "accept:rooted-ref" else "accept:unrooted-ref")
-          else VOk true "reject"
-        end
-      end
-  | _, _, _, _ => VBad "undecodable case or observation"
+      finish (oracle_chain a1 a2 ref1 boots1 ref2 boots2 r1 r2)
+             (corr_chain a1 a2 ref1 boots1 ref2 boots2 r1 r2)
+             (negb (forallb (same_taxa ref2) boots2) || nontrivial_case ref2 boots2)
+             ("chain:" ++ a1 ++ ">" ++ a2 ++
+              (if forallb (same_taxa ref1) boots1 then ":accept" else ":reject") ++
+              (if forallb (same_taxa ref2) boots2 then ">accept" else ">reject"))
+  | _, _, _, _, _, _, _, _ => VBad "undecodable case or observation"
+  end.
+
+Definition judge (c o : sexp) : verdict :=
+  match get_string "mode" c with
+  | Some m => if String.eqb m "chain" then judge_chain c o
+              else if String.eqb m "fresh" then judge_pair true c o
+              else judge_pair false c o
+  | None => judge_pair false c o
   end.
